@@ -108,7 +108,7 @@ func TestC04Exhaustive(t *testing.T) {
 					case a.Panic != nil:
 						viol = fmt.Sprintf("panic: %v", a.Panic)
 					case bad:
-						if a.Err == nil || isRuntimeErr(a.Err) || a.Blocks != nil || a.Binding != nil {
+						if a.Err == nil || isRuntimeErr(a.Err) || len(a.Blocks) != 0 || a.Binding != nil {
 							viol = fmt.Sprintf("expected compile error, got err=%v binding=%v", a.Err, a.Binding)
 						}
 					case cand == 0:
